@@ -156,6 +156,43 @@ pub fn describe(events: &[Ev], r: &Recipe) -> serde_json::Value {
     })
 }
 
+/// Human-readable digest of the events in `[from, to)`: what each device write carried.
+pub fn digest(events: &[Ev], from: usize, to: usize) -> Vec<String> {
+    let u64_at = |d: &[u8], o: usize| d.get(o..o + 8).map(|b| u64::from_le_bytes(b.try_into().unwrap())).unwrap_or(0);
+    let u32_at = |d: &[u8], o: usize| d.get(o..o + 4).map(|b| u32::from_le_bytes(b.try_into().unwrap())).unwrap_or(0);
+    let mut out = Vec::new();
+    for (i, ev) in events.iter().enumerate().take(to.min(events.len())).skip(from) {
+        out.push(match ev {
+            Ev::W { off, data, uring, applied, .. } => {
+                let block = off / 4096;
+                let blocks = data.len().div_ceil(4096);
+                let what = match crate::mon::classify_write(*off, data) {
+                    crate::mon::IoClass::MetaWrite => "metadata".to_string(),
+                    crate::mon::IoClass::JournalWrite => {
+                        let n = u32_at(data, 28) as usize;
+                        let ext: Vec<(u32, u32)> = (0..n.min(8)).map(|j| (u32_at(data, 40 + j * 8), u32_at(data, 44 + j * 8))).collect();
+                        format!("journal v{} gen {} state {} count {} extents {:?}", u32_at(data, 8), u64_at(data, 16), u32_at(data, 24), n, ext)
+                    }
+                    crate::mon::IoClass::MarkerWrite => {
+                        let heads: Vec<(u64, u64, u8)> = (0..blocks.min(4)).map(|b| (block + b as u64, u64_at(data, b * 4096 + 8), data.get(b * 4096 + 18).copied().unwrap_or(0))).collect();
+                        format!("markers (block, remaining, state) {:?}", heads)
+                    }
+                    crate::mon::IoClass::DataWrite => {
+                        let klen = data.get(4..6).map(|b| u16::from_le_bytes(b.try_into().unwrap()) as usize).unwrap_or(0);
+                        let key = data.get(6..6 + klen.min(64)).map(|k| String::from_utf8_lossy(k).to_string()).unwrap_or_default();
+                        format!("record key '{}' value_len {} ts {}", key, u64_at(data, 6 + klen), u64_at(data, 14 + klen))
+                    }
+                    crate::mon::IoClass::Fsync => String::new(),
+                };
+                format!("#{i} write block {block}+{blocks}{}{}: {what}", if *uring { " (uring)" } else { "" }, if *applied { "" } else { " NOT APPLIED" })
+            }
+            Ev::Fb { .. } => format!("#{i} fsync begins"),
+            Ev::Fe { ok } => format!("#{i} fsync ends ok={ok}"),
+        });
+    }
+    out
+}
+
 pub fn trace_shape(events: &[Ev]) -> String {
     let mut s = String::new();
     for ev in events {
